@@ -254,4 +254,130 @@ theorem valid_connect_accepted (s : LL) (r : Raw) (sca : Nat) (ho : s.ownSca ≤
   rw [hw]
   rfl
 
+/-! ### LL_CONNECTION_UPDATE_IND: the new parameters are only taken over when valid -/
+
+-- `handle_pending_ll_control` at the instant: the update is applied (state `connection_changed`, new
+-- parameters in force for the planned event) only for valid parameters (or WinSize = Interval); otherwise the
+-- link is given up.  Never an assertion.
+theorem update_only_if_valid_partial (s s1 : LL) (go : Bool) (r : Raw) (inst : Nat)
+    (hp : s.pending = some (r, inst)) (hi : inst = s.counter) (h : handlePending s = some (s1, go)) :
+    (go = true ∧ (SpecValid r ∨ WindowEqualsInterval r) ∧ s1.tp = (parseUpdate r).1 ∧ s1.phase = .changed
+      ∧ s1.timeSince = s.timeSince ∧ s1.pending = none)
+    ∨ (go = false ∧ ¬ (SpecValid r ∨ WindowEqualsInterval r)) := by
+  unfold handlePending at h
+  rw [hp] at h
+  simp only [hi, if_true] at h
+  obtain ⟨b, hb⟩ := parseUpdate_total r
+  rw [hb] at h
+  cases b with
+  | true =>
+    simp only [Option.some.injEq, Prod.mk.injEq] at h
+    left
+    rw [← h.1, ← h.2]
+    exact ⟨rfl, (parseUpdate_accepts_iff r).1 hb, rfl, rfl, rfl, rfl⟩
+  | false =>
+    simp only [Option.some.injEq, Prod.mk.injEq] at h
+    right
+    refine ⟨h.2.symm, fun hv => ?_⟩
+    have := (parseUpdate_accepts_iff r).2 hv
+    rw [hb] at this
+    cases this
+
+
+-- planning the next event after a lost event ends the link only through a refused connection update
+theorem drop_means_refused_update (s s' : LL) (hc : s.phase ≠ .advertising)
+    (h : (dtAdd s.timeSince s.tp.interval).bind
+        (fun ts' => applyPendingAndSetup { s with counter := (s.counter + 1) % 65536, timeSince := ts' }) = some s')
+    (hd : s'.phase = .advertising) :
+    ∃ r, s.pending = some (r, (s.counter + 1) % 65536) ∧ ¬ (SpecValid r ∨ WindowEqualsInterval r) := by
+  cases ha : dtAdd s.timeSince s.tp.interval with
+  | none => rw [ha] at h; cases h
+  | some ts' =>
+    rw [ha] at h
+    simp only [Option.bind_some] at h
+    unfold applyPendingAndSetup at h
+    cases hh : handlePending { s with counter := (s.counter + 1) % 65536, timeSince := ts' } with
+    | none => rw [hh] at h; cases h
+    | some res =>
+      obtain ⟨s1, go⟩ := res
+      rw [hh] at h
+      simp only [Option.bind_eq_bind, Option.bind_some] at h
+      cases hpend : s.pending with
+      | none =>
+        unfold handlePending at hh
+        simp only [hpend, Option.some.injEq, Prod.mk.injEq] at hh
+        rw [← hh.2] at h
+        simp only [if_true] at h
+        obtain ⟨a, b, _, e⟩ := setupNext_some h
+        rw [e, ← hh.1] at hd
+        exact absurd hd hc
+      | some ri =>
+        obtain ⟨r, inst⟩ := ri
+        by_cases hi : inst = (s.counter + 1) % 65536
+        · have := update_only_if_valid_partial { s with counter := (s.counter + 1) % 65536, timeSince := ts' } s1 go r inst
+            hpend hi hh
+          rcases this with ⟨hgo, _, _, hph, _, _⟩ | ⟨_, hbad⟩
+          · rw [hgo] at h
+            simp only [if_true] at h
+            obtain ⟨a, b, _, e⟩ := setupNext_some h
+            rw [e] at hd
+            simp only at hd
+            rw [hph] at hd
+            cases hd
+          · exact ⟨r, by rw [hi], hbad⟩
+        · unfold handlePending at hh
+          simp only [hpend] at hh
+          rw [if_neg hi] at hh
+          simp only [Option.some.injEq, Prod.mk.injEq] at hh
+          rw [← hh.2] at h
+          simp only [if_true] at h
+          obtain ⟨a, b, _, e⟩ := setupNext_some h
+          rw [e, ← hh.1] at hd
+          exact absurd hd hc
+
+/-! ### "The connection is dropped for supervision timeout only after no valid packet for the supervision timeout" -/
+
+-- `timeout()`: the planned event was lost `timeSince` after the last anchor.  The link is given up only
+--  * by the LL procedure timer (reason 0x22), or
+--  * when that time has reached the supervision timeout, or
+--  * before the connection is established, at the sixth lost event (`timeSince ≥ 5 · interval`), or
+--  * when a connection update with refused parameters reaches its instant.
+theorem supervision_only_after_timeout (s s' : LL) (hiv : s.tp.interval ≤ 4000000)
+    (hc : s.phase ≠ .advertising) (h : timeoutStep s = some s') (hd : s'.phase = .advertising) :
+    (s.proc ≠ 0 ∧ s.proc ≤ s.timeSince)
+    ∨ s.tp.timeoutUs ≤ s.timeSince
+    ∨ (s.phase = .connecting ∧ 5 * s.tp.interval ≤ s.timeSince)
+    ∨ (∃ r, s.pending = some (r, (s.counter + 1) % 65536) ∧ ¬ (SpecValid r ∨ WindowEqualsInterval r)) := by
+  unfold timeoutStep at h
+  by_cases hp : s.proc ≠ 0 ∧ s.proc ≤ s.timeSince
+  · exact Or.inl hp
+  · right
+    simp only [if_neg hp] at h
+    by_cases ht : s.timeSince < s.tp.timeoutUs
+    · simp only [if_pos ht] at h
+      have h5 : dtMul s.tp.interval 5 = some (s.tp.interval * 5) := dtMul_small (by omega)
+      by_cases hcon : s.phase = .connecting
+      · simp only [if_pos hcon, h5, Option.map_some, Option.bind_eq_bind, Option.bind_some] at h
+        by_cases h6 : s.timeSince ≥ s.tp.interval * 5
+        · right; left; exact ⟨hcon, by omega⟩
+        · simp only [h6, decide_false, Bool.not_false, if_true] at h
+          right; right
+          exact drop_means_refused_update s s' hc h hd
+      · simp only [if_neg hcon, Option.bind_eq_bind, Option.bind_some, if_true] at h
+        right; right
+        exact drop_means_refused_update s s' hc h hd
+    · left; omega
+
+-- and it *is* given up then: a lost event at or after the supervision timeout ends the connection
+theorem supervision_timeout_enforced (s s' : LL) (ht : s.tp.timeoutUs ≤ s.timeSince)
+    (h : timeoutStep s = some s') : s'.phase = .advertising := by
+  unfold timeoutStep at h
+  by_cases hp : s.proc ≠ 0 ∧ s.proc ≤ s.timeSince
+  · simp only [if_pos hp, Option.some.injEq] at h
+    rw [← h]; rfl
+  · have hn : ¬ s.timeSince < s.tp.timeoutUs := by omega
+    simp only [if_neg hp, if_neg hn, Option.bind_eq_bind, Option.bind_some, Bool.false_eq_true, if_false,
+      Option.some.injEq] at h
+    rw [← h]; rfl
+
 end BluetoeModel.Timing
